@@ -89,11 +89,19 @@ def main(tier, seed):
     rng = lib.rng_for(seed, PID)
     n_prog = 90 if tier == 'quick' else 2000
     terms, metas = [], []
-    for it in range(n_prog):
-        rational = it % 3 == 0
-        prog = progs.gen_prog(rng, ap, rational=rational, nout=rng.choice([1, 1, 2]))
+    kernel = progs.kernel_programs(rng, ap, reps=2 if tier == 'quick' else 10)
+    for it in range(n_prog + len(kernel)):
+        rational = it % 3 == 0 and it < n_prog
+        if it < n_prog:
+            prog = progs.gen_prog(rng, ap, rational=rational, nout=rng.choice([1, 1, 2]), focus='linalg' if it % 3 == 1 else None)
+        else:
+            # every pullback kernel at D >= 2, several directions, regardless of what the random composition picked
+            kname, prog = kernel[it - n_prog]
+            rep.count('kernel program', kname)
         N = prog['N']
         D = rng.randint(1, 4 if not rational else 3); P = rng.randint(1, 3 if not rational else 2)
+        if it >= n_prog:
+            D = rng.randint(2, 4); P = rng.randint(2, 3)
         text = progs.to_text(prog)
         x_rec = progs.rand_utpm_data(rng, D, P, N)
         x_new = progs.rand_utpm_data(rng, D, P, N)
